@@ -80,6 +80,9 @@ type Params struct {
 	// difficulty) is a non-zero margin and forks of equal length with different
 	// timestamps are near ties.
 	HiDiff bool `json:",omitempty"`
+	// OakHeight moves the Oak (and ASIC, Foundation) hardfork away from height
+	// 1, so that chains cross the change of the difficulty algorithm; 0 = 1.
+	OakHeight uint64 `json:",omitempty"`
 }
 
 // RandomParams draws hardfork heights for a regime.
@@ -121,6 +124,12 @@ func NewEnv(p Params) *Env {
 	n.HardforkV2.RequireHeight = p.Require
 	n.HardforkV2.FinalCutHeight = p.FinalCut
 
+	if p.OakHeight > 1 {
+		n.HardforkOak.Height = p.OakHeight
+		n.HardforkOak.FixHeight = p.OakHeight + 3
+		n.HardforkASIC.Height = p.OakHeight + 2
+		n.HardforkFoundation.Height = p.OakHeight + 2
+	}
 	if p.HiDiff {
 		work := func(w int64) (id types.BlockID) {
 			t := new(big.Int).Div(new(big.Int).Lsh(big.NewInt(1), 256), big.NewInt(w))
